@@ -1148,7 +1148,6 @@ impl Interpreter {
 
                             let mut vm = BytecodeVM::from_saved_state(
                                 order_suspension.state,
-                                JsValue::Object(self.global.clone()),
                                 vm_guard,
                                 &self.heap,
                             );
@@ -1162,7 +1161,6 @@ impl Interpreter {
                             let vm_guard = self.heap.create_guard();
                             let mut vm = BytecodeVM::from_saved_state(
                                 order_suspension.state,
-                                JsValue::Object(self.global.clone()),
                                 vm_guard,
                                 &self.heap,
                             );
@@ -1209,7 +1207,6 @@ impl Interpreter {
                                 let vm_guard = self.heap.create_guard();
                                 let mut vm = BytecodeVM::from_saved_state(
                                     ctx.state,
-                                    JsValue::Object(self.global.clone()),
                                     vm_guard,
                                     &self.heap,
                                 );
@@ -1220,7 +1217,6 @@ impl Interpreter {
                                 let vm_guard = self.heap.create_guard();
                                 let mut vm = BytecodeVM::from_saved_state(
                                     ctx.state,
-                                    JsValue::Object(self.global.clone()),
                                     vm_guard,
                                     &self.heap,
                                 );
@@ -3075,12 +3071,14 @@ impl Interpreter {
                 arguments: args.clone(),
                 new_target: JsValue::Undefined,
                 trampoline_stack: Vec::new(), // Generators run at top level
+                this_value: this_value.clone(),
+                saved_env_stack: Vec::new(), // the generator's current environment is kept in gen_state
+                pending_completion: None,
             };
 
             // Create guard for the VM registers
             let vm_guard = self.heap.create_guard();
-            let mut vm =
-                BytecodeVM::from_saved_state(saved_state, this_value.clone(), vm_guard, &self.heap);
+            let mut vm = BytecodeVM::from_saved_state(saved_state, vm_guard, &self.heap);
 
             // Check if we need to throw an exception (generator.throw())
             let throw_value = gen_state.borrow_mut().throw_value.take();
